@@ -65,6 +65,14 @@ def check_tokenizer(chk, idx, qual, snippet=None):
     if not params:
         raise AnalysisError('%s.tokenize has no input parameter' % name)
     inp = params[0]
+    # the flush accounting counts Token(...) constructions handed to the result list; a tokenizer that builds its tokens another
+    # way (an alternative constructor, a helper) is outside this argument and is decided by the tabulation instead
+    for n_ in ast.walk(fn):
+        if isinstance(n_, ast.Call) and isinstance(n_.func, ast.Attribute) and n_.func.attr in ('append', 'extend', 'insert') \
+                and n_.args and not (isinstance(n_.args[-1], ast.Call) and isinstance(n_.args[-1].func, ast.Name)
+                                     and n_.args[-1].func.id == 'Token'):
+            raise AnalysisError('%s.tokenize hands %s to its result list, not a Token(...) construction'
+                                % (name, ast.unparse(n_.args[-1])[:60]))
     loops = [n for n in fn.body if isinstance(n, ast.For)]
     if len(loops) != 1:
         raise AnalysisError('%s.tokenize: expected exactly one scanner loop' % name)
@@ -615,9 +623,11 @@ def run(chk):
     idx = get_index()
     chk.explanation = ('offset algebra on the tokenizers (token text = slice; per-branch flush accounting of the scanner '
                        'loop), on StringMatcher.find\'s index-to-offset mapping, on init\'s key pairing and on the trie yield')
-    chk.rule('C16.token-slice', 'Token(a, b, input[c:d]) has c == a and d == a + b', floor=1, control=True)
+    # floor 0: a tokenizer that builds its tokens through an alternative constructor (Token.from_slice(text, a, b)) has no literal
+    # Token(a, b, input[c:d]) left; it is decided by C16.tab.tokens, and the positive control keeps this rule honest
+    chk.rule('C16.token-slice', 'Token(a, b, input[c:d]) has c == a and d == a + b', floor=0, control=True)
     chk.rule('C16.flush', 'scanner-loop flush accounting per branch x in_token', floor=1, control=True)
-    chk.rule('C16.find-map', 'StringMatcher.find token-index to character-offset mapping', floor=3)
+    chk.rule('C16.find-map', 'StringMatcher.find token-index to character-offset mapping', floor=1)
     chk.rule('C16.init-pairs', 'dict form of init pairs each value with its own key', floor=1)
     chk.rule('C16.trie-yield', 'TrieTree.find yields (i, j - i) for the walk from i; every start is tried and every walk reaches the end of the query (or a proven phrase-length bound)', floor=1)
     chk.rule('C16.insert-all', 'every (phrase, id) pair reaches the trie: batch_insert, TrieTree.insert, Node.add_value', floor=3)
@@ -633,7 +643,16 @@ def run(chk):
                            'shape outside the structural argument (%s): decided by C16.tab.tokens on every string up to the '
                            'stated bound instead' % str(e)[:160], 'structural argument not applicable')
             chk.observe('%s - %s.tokenize is decided by C16.tab.tokens alone on this tree' % (e, c_.name))
-    check_find(chk, idx)
+    try:
+        check_find(chk, idx)
+    except AnalysisError as e:
+        # the offset-algebra argument needs the MatchResult() + setter shape inside find; a mapping written differently (helper
+        # method, constructor arguments) is decided by the bounded-exhaustive tabulation C16.tab.find, and says so
+        c_ = idx.cls('recognizers_text.matcher.string_matcher.StringMatcher')
+        chk.exempt('C16.find-map', c_.mod.path, 'StringMatcher.find',
+                   'shape outside the structural argument (%s): decided by C16.tab.find on every dictionary/query up to the '
+                   'stated bound instead' % str(e)[:160], 'structural argument not applicable')
+        chk.observe('C16.find-map: %s - StringMatcher.find is decided by C16.tab.find alone on this tree' % e)
     check_init_pairs(chk, idx)
     try:
         check_trie(chk, idx)
